@@ -34,7 +34,7 @@ use std::time::{Duration, SystemTime};
 pub const KIND_NAMES: &[&str] = &[
     "scalar", "hist", "dupField", "emptyName", "awsName", "missingDim", "dimIsMetric", "dimsNoSplit",
     "twoTs", "errValue", "edimsTwice", "split1", "split2", "entryDims", "unroutable", "sampled",
-    "badRate", "allNaN", "huge",
+    "badRate", "allNaN", "huge", "entryDims2", "edimsMissing", "edimsMissing2", "edimsMetric",
 ];
 
 /// multi-megabyte payload shared by all `huge` entries
@@ -116,6 +116,9 @@ pub struct KEntry {
     ts: SystemTime,
     split: AllowSplitEntries,
     edims: EntryDimensions,
+    /// a second, different EntryDimensions value
+    edims2: EntryDimensions,
+    shard: String,
     big: Arc<Big>,
 }
 
@@ -131,6 +134,8 @@ impl KEntry {
             ts: SystemTime::UNIX_EPOCH + Duration::from_millis(1_700_000_000_000 + salt * 1000 + 7),
             split: AllowSplitEntries::new(),
             edims: EntryDimensions::new(Cow::Owned(vec![Cow::Owned(vec![Cow::Borrowed("Extra")])])),
+            edims2: EntryDimensions::new(Cow::Owned(vec![Cow::Owned(vec![Cow::Borrowed("Shard")])])),
+            shard: format!("shard-{salt}"),
             big: big.clone(),
         }
     }
@@ -253,6 +258,29 @@ impl Entry for KEntry {
                 w.timestamp(self.ts);
                 w.value("Operation", self.op.as_str());
                 w.value("Extra", self.extra.as_str());
+                w.value("Latency", &latency);
+            }
+            "entryDims2" => {
+                w.config(&self.edims2);
+                w.timestamp(self.ts);
+                w.value("Operation", self.op.as_str());
+                w.value("Shard", self.shard.as_str());
+                w.value("Latency", &latency);
+            }
+            // entry dimensions declared (same values as entryDims / entryDims2), the member they
+            // name is absent: rejected only because config() registers the name for THIS entry
+            "edimsMissing" | "edimsMissing2" => {
+                w.config(if self.kind == "edimsMissing" { &self.edims } else { &self.edims2 });
+                w.timestamp(self.ts);
+                w.value("Operation", self.op.as_str());
+                w.value("Latency", &latency);
+            }
+            // ... or is written as a metric
+            "edimsMetric" => {
+                w.config(&self.edims);
+                w.timestamp(self.ts);
+                w.value("Operation", self.op.as_str());
+                w.value("Extra", &Met { obs: &[u(9 + s)], unit: Unit::None, dims: none, flags: 0 });
                 w.value("Latency", &latency);
             }
             "sampled" => {
